@@ -56,7 +56,9 @@ def _base(rng, tier):
         body.insert(rng.randint(0, max(0, len(body) - (1 if body and body[-1][0] == "r" else 0))), ["cd"])
     if rng.random() < 0.08:
         body = c04.misuse(rng, body)
-    return {"cfg": cfg, "umask": rng.choice([0o022, 0o022, 0o077, 0, 0o027]), "init": init, "body": body,
+    umask = rng.choice([0o022, 0o022, 0o077, 0, 0o027])
+    c04.resolve_perms(cfg, umask)
+    return {"cfg": cfg, "umask": umask, "init": init, "body": body,
             "body_exc": rng.random() < 0.15, "sched": [], "crash": None, "retry": True}
 
 
